@@ -7,7 +7,7 @@
     action/governance/voteProposal.go     (`runVote`)
     action/governance/cancelProposal.go   (`runCancel`)
     action/governance/withdrawFunds.go    (`runWithdraw`)
-    action/governance/expireVotes.go      (`runExpireVotes`: checks neither deadline nor status)
+    action/governance/expireVotes.go      (`runExpireVotes`: VOTING status and passed deadline required)
     action/governance/finalizeProposal.go (`runFinalizeProposal`, `distributeFunds`, `getPercentageCoin`,
                                            `setToFinalize*`)
     action/govUpdate.go                   (the update functions, as "validate / apply a named change")
@@ -23,8 +23,8 @@
   written in the current block is readable by key but invisible to iteration until the block is
   committed (`beginBlock` stands for "Commit of the previous block, then BeginBlock").
 
-  Float expressions of `ResultSoFar` are parameters (`Env.geDiv`, `Env.ltOneMinus`); the
-  distribution percentages are the already converted integers `int64(percentage * 10000)`.
+  `ResultSoFar` decides in integers (its float percentages are only logged); the distribution
+  percentages are the already converted integers `int64(percentage * 10000)`.
   Amounts are unbounded integers.  Where Go panics (division by `len(validatorList) = 0`) the
   model returns `Err.panicDivZero`, which `step` reports as `Res.crash`.
   Core-only: linked into the driver executable.
@@ -145,21 +145,15 @@ def Opts.byType (o : Opts) : PType → POpt
   | .code => o.code
   | .general => o.general
 
-/-- parameters: the float comparisons of `ResultSoFar` and the validation of option groups that
-    are not modelled (staking, proposal, evidence) -/
+/-- parameter: the validation of the option groups that are not modelled (staking, proposal,
+    evidence) -/
 structure Env where
-  /-- `float64(x)/float64(t) >= float64(pass)/100.0` -/
-  geDiv : Int → Int → Int → Bool
-  /-- `(1.0 - float64(x)/float64(t)) < float64(pass)/100.0` -/
-  ltOneMinus : Int → Int → Int → Bool
   /-- would `Validate<Group>` accept the group with `key` set to `value` -/
   otherValid : String → String → Bool
 
-/-- the comparisons over the rationals (what the floats are meant to compute) -/
-def exactEnv : Env :=
-  { geDiv := fun x t p => decide (p * t ≤ x * 100)
-    ltOneMinus := fun x t p => decide ((t - x) * 100 < p * t)
-    otherValid := fun _ _ => false }
+/-- the small genesis family: the un-modelled groups are out of range, every update of one of
+    their keys is rejected -/
+def smallEnv : Env := { otherValid := fun _ _ => false }
 
 /-- the fee pool is the balance record `f_<POOL_KEY>` -/
 def poolAcc : Addr := "feepool"
@@ -292,22 +286,32 @@ inductive VoteResult where
   | passed | failed | tbd
   deriving DecidableEq, Repr
 
-/-- the decision of `ResultSoFar` given the accumulated powers -/
-def decide3 (E : Env) (yes no all giveup pass : Int) : VoteResult :=
-  let total := all - giveup
-  -- `if totalPower > 0 { … }` else both percentages stay 0.0 = 0/1
-  let y := if total > 0 then yes else 0
-  let n := if total > 0 then no else 0
-  let t := if total > 0 then total else 1
-  if E.geDiv y t pass then .passed
-  else if E.ltOneMinus n t pass then .failed
+/-- PASSED: the yes power reaches the pass percentage of the power that did not give up
+    (`yesPower*100 >= passPercent*totalPower`; without counted power: `passPercent <= 0`) -/
+def passCond (yes all giveup pass : Int) : Prop :=
+  if all - giveup > 0 then pass * (all - giveup) ≤ yes * 100 else pass ≤ 0
+
+/-- FAILED: even with every other validator voting yes the percentage cannot be reached
+    (`(totalPower-noPower)*100 < passPercent*totalPower`; without counted power: `passPercent > 100`) -/
+def failCond (no all giveup pass : Int) : Prop :=
+  if all - giveup > 0 then ((all - giveup) - no) * 100 < pass * (all - giveup) else 100 < pass
+
+instance (yes all giveup pass : Int) : Decidable (passCond yes all giveup pass) := by
+  unfold passCond; infer_instance
+instance (no all giveup pass : Int) : Decidable (failCond no all giveup pass) := by
+  unfold failCond; infer_instance
+
+/-- the decision of `ResultSoFar` given the accumulated powers (integer arithmetic) -/
+def decide3 (yes no all giveup pass : Int) : VoteResult :=
+  if passCond yes all giveup pass then .passed
+  else if failCond no all giveup pass then .failed
   else .tbd
 
 /-- `ResultSoFar`: `none` = "no votes records found" (error) -/
-def resultSoFar (E : Env) (votes : List (Addr × VoteRec)) (pass : Int) : Option VoteResult :=
+def resultSoFar (votes : List (Addr × VoteRec)) (pass : Int) : Option VoteResult :=
   let c := cvotes votes
   if c.isEmpty then none
-  else some (decide3 E (powerOf .yes c) (powerOf .no c) (allPower c) (powerOf .giveup c) pass)
+  else some (decide3 (powerOf .yes c) (powerOf .no c) (allPower c) (powerOf .giveup c) pass)
 
 /-! ### funds (proposal_fund_store.go) -/
 
@@ -478,7 +482,7 @@ def runFund (s : St) (pid : PID) (funder : Addr) (value : Int) : Except Err St :
       | .ok b => .ok { (s.setItem pid (it1.addFunds funder value)) with bal := b }
 
 /-- `runVote` -/
-def runVote (E : Env) (s : St) (pid : PID) (validator : Addr) (o : Opinion) : Except Err St :=
+def runVote (s : St) (pid : PID) (validator : Addr) (o : Opinion) : Except Err St :=
   let it := s.item pid
   match it.active with
   | none => .error .proposalNotExists
@@ -490,7 +494,7 @@ def runVote (E : Env) (s : St) (pid : PID) (validator : Addr) (o : Opinion) : Ex
       match updateVote it.votes validator o with
       | none => .error .addingVoteToVoteStore
       | some votes' =>
-        match resultSoFar E votes' (s.opts.byType p.ptype).passPercent with
+        match resultSoFar votes' (s.opts.byType p.ptype).passPercent with
         | none => .error .peekingVoteResult
         | some .passed =>
           .ok (s.setItem pid (((it.withVotes votes').set .passed
@@ -531,13 +535,14 @@ def runWithdraw (s : St) (pid : PID) (funder : Addr) (value : Int) (beneficiary 
         | none => .error .deductFunding
         | some it2 => .ok { (s.setItem pid it2) with bal := addTo s.bal beneficiary value }
 
-/-- `runExpireVotes`: no deadline check, no status check -/
+/-- `runExpireVotes`: only a VOTING proposal whose deadline has passed -/
 def runExpire (s : St) (pid : PID) : Except Err St :=
   let it := s.item pid
   match it.active with
   | none => .error .proposalNotExists
   | some p =>
-    .ok (s.setItem pid ((it.set .failed { p with status := .completed, outcome := .insufficientVotes }).del .active))
+    if p.status ≠ .voting ∨ s.height ≤ p.votingDeadline then .error .statusNotVoting
+    else .ok (s.setItem pid ((it.set .failed { p with status := .completed, outcome := .insufficientVotes }).del .active))
 
 /-- `getPercentageCoin`: `totalFunds * int64(percentage*10000) / 1000000` -/
 def pct (total p10k : Int) : Int := total * p10k / 1000000
@@ -595,7 +600,7 @@ def runFinalize (E : Env) (s : St) (pid : PID) : Except Err St :=
     | some p =>
       if p.status ≠ .completed then .error .statusNotCompleted
       else
-        match resultSoFar E it.votes p.passPercent with
+        match resultSoFar it.votes p.passPercent with
         | none => .error .unableToQueryVoteResult
         | some .tbd => .error .votingTBD
         | some .passed =>
@@ -634,7 +639,7 @@ inductive Op where
   | vote (pid : PID) (payer validator : Addr) (opinion : Opinion) (fee : Int)
   | cancel (pid : PID) (proposer : Addr) (fee : Int)
   | withdraw (pid : PID) (funder : Addr) (value : Int) (beneficiary : Addr) (fee : Int)
-  | expire (pid : PID)            -- EXPIRE_VOTES on the public router: any signer, no fee
+  | expire (pid : PID)            -- EXPIRE_VOTES on the public router: any signer, no fee, same checks as the internal one
   | finalize (pid : PID)          -- PROPOSAL_FINALIZE on the public router: any signer, no fee
   | beginBlock (h : Int)          -- Commit of the previous block, then BeginBlock at height h
   | endBlock
@@ -650,7 +655,7 @@ def runTx (E : Env) (s : St) : Op → Except Err St
   | .vote pid payer val o fee =>
     -- `IsValidatorAddress`: a record with positive power
     match alookup val s.vals with
-    | some r => if r.power > 0 then withFee (runVote E s pid val o) payer fee else .error .invalid
+    | some r => if r.power > 0 then withFee (runVote s pid val o) payer fee else .error .invalid
     | none => .error .invalid
   | .cancel pid pr fee => withFee (runCancel s pid pr) pr fee
   | .withdraw pid f v b fee => if v < 0 then .error .invalid else withFee (runWithdraw s pid f v b) f fee
